@@ -1279,11 +1279,13 @@ async fn replay(r: &mut Runner, lines: &[String]) {
         }
         let raw: Vec<&str> = l.split(' ').collect();
         let has_choice = matches!(raw.as_slice(), ["b", "add_cluster", ..] | ["b", "add_nodes", ..] | ["b", "failover", ..]);
+        // registering the proxies is symmetric in <j>: no renaming there (and none learned yet)
+        let verbatim = matches!(raw.as_slice(), ["b", "add_proxy", ..]);
         let n = raw.len();
         let owned: Vec<String> = raw
             .iter()
             .enumerate()
-            .map(|(i, t)| if has_choice && i + 1 == n { t.to_string() } else { remap.tok(t) })
+            .map(|(i, t)| if verbatim || (has_choice && i + 1 == n) { t.to_string() } else { remap.tok(t) })
             .collect();
         let toks: Vec<&str> = owned.iter().map(|s| s.as_str()).collect();
         match toks.as_slice() {
